@@ -1644,11 +1644,34 @@ class _SideEffectCache(threading.local):
     self.cache = {}
 
 
-_side_effect_cache = _SideEffectCache()
+def _call_signature(args, kwargs):
+  """Shapes / dtypes of the array arguments and the values of the other ones."""
+  leaves, treedef = jax.tree_util.tree_flatten((args, kwargs))
+
+  def leaf_signature(x):
+    if hasattr(x, 'shape') and hasattr(x, 'dtype'):
+      return (tuple(x.shape), str(x.dtype))
+    try:
+      hash(x)
+      return x
+    except TypeError:
+      return type(x)
+
+  return (treedef, tuple(leaf_signature(x) for x in leaves))
 
 
-def _restore_rng_counters(scopes, fingerprint, capture_old_counts):
-  if fingerprint not in _side_effect_cache.cache:
+def _restore_rng_counters(
+    scopes, fingerprint, capture_old_counts, cache, signature, traced
+):
+  """Makes the rng counters advance on a trace-cache hit as they did when traced.
+
+  `cache` belongs to one lifted function. When the function body ran in this
+  call (`traced`) the counters have really advanced: they are kept and the
+  advance is recorded for this call signature; only when the body did not run
+  the recorded advance is replayed.
+  """
+  key = (fingerprint, signature)
+  if traced or (key not in cache and (fingerprint, None) not in cache):
     capture_new_counts = jax.tree.map(
         lambda s: CountsHolder.make(s.rng_counters), scopes
     )
@@ -1657,11 +1680,11 @@ def _restore_rng_counters(scopes, fingerprint, capture_old_counts):
         capture_old_counts,
         capture_new_counts,
     )
-    _side_effect_cache.cache[fingerprint] = capture_delta_counts
+    cache[key] = cache[(fingerprint, None)] = capture_delta_counts
   else:
     updated_counts = jax.tree.map(
         lambda x, y: x.add(y).unflat(),
-        _side_effect_cache.cache[fingerprint],
+        cache[key] if key in cache else cache[(fingerprint, None)],
         capture_old_counts,
     )
     jax.tree.map(
@@ -1736,6 +1759,10 @@ def jit(
   # this is impure but we use the fingerprint arg to differentiate between cases
   # where scope_fn or repack_fn actually produce non-identical results.
   jit_context = TransformContext[tuple[Callable, Callable]]()
+  # rng-counter advances recorded per call signature, for this jitted function
+  # only (two lifted methods of one module must not share them)
+  side_effect_cache = _SideEffectCache()
+  traced_calls: list[int] = []
 
   @functools.partial(
       jax.jit,
@@ -1747,6 +1774,7 @@ def jit(
   )
   @functools.wraps(fn)
   def jitted(fingerprint, variable_groups, rng_groups, *args, **kwargs):
+    traced_calls.append(1)  # this body only runs when jax traces the call
     scope_fn, repack_fn = jit_context.get()
     hash_key = fingerprint[1]
     # fingerprint is only used to differentiate the cache signature
@@ -1780,8 +1808,17 @@ def jit(
       capture_old_counts = jax.tree.map(
           lambda s: CountsHolder.make(s.rng_counters), scopes
       )
+      n_traced = len(traced_calls)
       res = jitted(fingerprint, variable_groups, rng_groups, *args, **kwargs)
-      _restore_rng_counters(scopes, fingerprint, capture_old_counts)
+      _restore_rng_counters(
+          scopes,
+          fingerprint,
+          capture_old_counts,
+          side_effect_cache.cache,
+          _call_signature(args, kwargs),
+          traced=len(traced_calls) > n_traced,
+      )
+      del traced_calls[:]
       return res
 
   return pack(
@@ -1919,7 +1956,7 @@ def fold_rngs(
       res = wrapped_fold_rngs(
           fingerprint, variable_groups, rng_groups, *args, **kwargs
       )
-      _restore_rng_counters(scopes, fingerprint, capture_old_counts)
+      # the function is not cached: it ran and the counters have advanced.
       return res
 
   return pack(
